@@ -13,6 +13,8 @@ structure CacheInv (P : Policy σ) (Ok : σ → Prop) (cfg : Cfg) (c : Cache σ)
   placed : ∀ (i : Nat) (s : Shard σ), c.shards[i]? = some s →
     ∀ r ∈ s.index, r.hash = cfg.H r.key ∧ cfg.shardOf r.hash = i
   fresh : ∀ (i : Nat) (s : Shard σ), c.shards[i]? = some s → ∀ r ∈ s.index, r.id < c.nextId
+  /-- disk-only (phantom) records are never indexed -/
+  real : ∀ (i : Nat) (s : Shard σ), c.shards[i]? = some s → ∀ r ∈ s.index, r.phantom = false
 
 theorem shardInv_ev {s : Shard σ} (h : ShardInv P Ok s) {ev' : σ} (hok : Ok ev')
     (hm : ∀ x, x ∈ P.members ev' ↔ x ∈ P.members s.ev) : ShardInv P Ok { s with ev := ev' } :=
@@ -47,9 +49,10 @@ theorem mapShards_length (f : Nat → Shard σ → Shard σ × List (Reason × R
 theorem inv_setAt {cfg : Cfg} {c : Cache σ} (hc : CacheInv P Ok cfg c) {i : Nat} {s s' : Shard σ}
     (_hi : c.shards[i]? = some s) (hs' : ShardInv P Ok s')
     (hpl : ∀ r ∈ s'.index, r.hash = cfg.H r.key ∧ cfg.shardOf r.hash = i)
-    {n' : Nat} (hn : c.nextId ≤ n') (hfr : ∀ r ∈ s'.index, r.id < n') (held' : List (Rec × Nat)) :
+    {n' : Nat} (hn : c.nextId ≤ n') (hfr : ∀ r ∈ s'.index, r.id < n')
+    (hre : ∀ r ∈ s'.index, r.phantom = false) (held' : List (Rec × Nat)) :
     CacheInv P Ok cfg { shards := setAt c.shards i s', nextId := n', held := held' } := by
-  refine ⟨by simp [length_setAt, hc.len], ?_, ?_, ?_⟩
+  refine ⟨by simp [length_setAt, hc.len], ?_, ?_, ?_, ?_⟩
   · intro j t ht
     simp only [getElem?_setAt] at ht
     split at ht
@@ -65,13 +68,18 @@ theorem inv_setAt {cfg : Cfg} {c : Cache σ} (hc : CacheInv P Ok cfg c) {i : Nat
     split at ht
     · cases ht; exact hfr r hr
     · exact Nat.lt_of_lt_of_le (hc.fresh j t ht r hr) hn
+  · intro j t ht r hr
+    simp only [getElem?_setAt] at ht
+    split at ht
+    · cases ht; exact hre r hr
+    · exact hc.real j t ht r hr
 
 /-- Apply a per-shard transformation that preserves the per-shard obligations to every shard. -/
 theorem inv_mapShards {cfg : Cfg} {c : Cache σ} (hc : CacheInv P Ok cfg c)
     (f : Nat → Shard σ → Shard σ × List (Reason × Rec) × Bool)
     (hf : ∀ i s, ShardInv P Ok s → ShardInv P Ok (f i s).1 ∧ ∀ x ∈ (f i s).1.index, x ∈ s.index) :
     CacheInv P Ok cfg { c with shards := (mapShards f 0 c.shards).1 } := by
-  refine ⟨by simp [mapShards_length, hc.len], ?_, ?_, ?_⟩
+  refine ⟨by simp [mapShards_length, hc.len], ?_, ?_, ?_, ?_⟩
   · intro j t ht
     simp only [mapShards_getElem?, Nat.zero_add] at ht
     cases hs : c.shards[j]? with
@@ -96,11 +104,19 @@ theorem inv_mapShards {cfg : Cfg} {c : Cache σ} (hc : CacheInv P Ok cfg c)
       simp only [hs, Option.map_some, Option.some.injEq] at ht
       subst ht
       exact hc.fresh j s hs r ((hf j s (hc.shard j s hs)).2 r hr)
+  · intro j t ht r hr
+    simp only [mapShards_getElem?, Nat.zero_add] at ht
+    cases hs : c.shards[j]? with
+    | none => simp [hs] at ht
+    | some s =>
+      simp only [hs, Option.map_some, Option.some.injEq] at ht
+      subst ht
+      exact hc.real j s hs r ((hf j s (hc.shard j s hs)).2 r hr)
 
 theorem evict_shard_ok (L : Lawful P Ok) (target : Nat) {s : Shard σ} (h : ShardInv P Ok s) :
     ShardInv P Ok (Shard.evict P s target).1 ∧ ∀ x ∈ (Shard.evict P s target).1.index, x ∈ s.index := by
   have es := evict_spec L target s h
-  obtain ⟨vs, _, _, _, _, hidx, _⟩ := es.victims
+  obtain ⟨vs, _, _, _, _, hidx, _, _⟩ := es.victims
   exact ⟨es.inv, fun x hx => ((hidx x).mp hx).1⟩
 
 theorem step_inv (L : Lawful P Ok) {cfg : Cfg} (hn : 0 < cfg.nshards) {c : Cache σ}
@@ -122,13 +138,13 @@ theorem step_inv (L : Lawful P Ok) {cfg : Cfg} (hn : 0 < cfg.nshards) {c : Cache
         generalize Shard.emplace P s _ = res at hinv hsub
         obtain ⟨s', lv, pk⟩ := res
         exact inv_setAt hc hs hinv (fun r hr => hplaced r (hsub r hr)) (Nat.le_succ _)
-          (fun r hr => Nat.lt_succ_of_lt (hfr r (hsub r hr))) _
+          (fun r hr => Nat.lt_succ_of_lt (hfr r (hsub r hr))) (fun r hr => hc.real _ s hs r (hsub r hr)) _
       | false =>
         have sp := emplace_spec (r := { id := c.nextId, key, hash := cfg.H key, ver, weight, hint, phantom := false }) L hsi rfl
           (fun x hx => Nat.ne_of_lt (hfr x hx))
         generalize Shard.emplace P s _ = res at sp
         obtain ⟨s', lv, pk⟩ := res
-        refine inv_setAt hc hs sp.inv ?_ (Nat.le_succ _) ?_ _
+        refine inv_setAt hc hs sp.inv ?_ (Nat.le_succ _) ?_ ?_ _
         · intro r hr
           rcases sp.index_old r hr with rfl | h
           · exact ⟨rfl, rfl⟩
@@ -137,6 +153,10 @@ theorem step_inv (L : Lawful P Ok) {cfg : Cfg} (hn : 0 < cfg.nshards) {c : Cache
           rcases sp.index_old r hr with rfl | h
           · exact Nat.lt_succ_self _
           · exact Nat.lt_succ_of_lt (hfr r h)
+        · intro r hr
+          rcases sp.index_old r hr with rfl | h
+          · rfl
+          · exact hc.real _ s hs r h
   | get key =>
     simp only [Cache.step]
     split
@@ -147,7 +167,7 @@ theorem step_inv (L : Lawful P Ok) {cfg : Cfg} (hn : 0 < cfg.nshards) {c : Cache
       · exact hc
       · rename_i r hr
         exact inv_setAt hc hs (shardInv_ev hsi (L.acquire_ok _ r hsi.ok) (L.acquire_mem _ r hsi.ok))
-          (hc.placed _ s hs) (Nat.le_refl _) (hc.fresh _ s hs) _
+          (hc.placed _ s hs) (Nat.le_refl _) (hc.fresh _ s hs) (hc.real _ s hs) _
   | touch key =>
     simp only [Cache.step]
     split
@@ -163,8 +183,8 @@ theorem step_inv (L : Lawful P Ok) {cfg : Cfg} (hn : 0 < cfg.nshards) {c : Cache
         · have h2 : ShardInv P Ok { s with ev := P.release (P.acquire s.ev r) r } :=
             shardInv_ev hsi (L.release_ok _ r h1.ok)
               (fun x => by rw [L.release_mem _ r h1.ok x]; exact L.acquire_mem _ r hsi.ok x)
-          exact inv_setAt hc hs h2 (hc.placed _ s hs) (Nat.le_refl _) (hc.fresh _ s hs) _
-        · exact inv_setAt hc hs h1 (hc.placed _ s hs) (Nat.le_refl _) (hc.fresh _ s hs) _
+          exact inv_setAt hc hs h2 (hc.placed _ s hs) (Nat.le_refl _) (hc.fresh _ s hs) (hc.real _ s hs) _
+        · exact inv_setAt hc hs h1 (hc.placed _ s hs) (Nat.le_refl _) (hc.fresh _ s hs) (hc.real _ s hs) _
   | contains key =>
     simp only [Cache.step]
     split <;> exact hc
@@ -180,12 +200,12 @@ theorem step_inv (L : Lawful P Ok) {cfg : Cfg} (hn : 0 < cfg.nshards) {c : Cache
         have hri := (findKey_some hr).1
         obtain ⟨hinv, hmem, _, _, _⟩ := unlink_inv L hsi hri
         exact inv_setAt hc hs hinv (fun x hx => hc.placed _ s hs x ((hmem x).mp hx).1) (Nat.le_refl _)
-          (fun x hx => hc.fresh _ s hs x ((hmem x).mp hx).1) _
+          (fun x hx => hc.fresh _ s hs x ((hmem x).mp hx).1) (fun x hx => hc.real _ s hs x ((hmem x).mp hx).1) _
   | clone rid =>
     simp only [Cache.step]
     split
     · exact hc
-    · exact ⟨hc.len, hc.shard, hc.placed, hc.fresh⟩
+    · exact ⟨hc.len, hc.shard, hc.placed, hc.fresh, hc.real⟩
   | drop rid =>
     simp only [Cache.step]
     split
@@ -193,14 +213,14 @@ theorem step_inv (L : Lawful P Ok) {cfg : Cfg} (hn : 0 < cfg.nshards) {c : Cache
     · rename_i r hr
       split
       · split
-        · exact ⟨hc.len, hc.shard, hc.placed, hc.fresh⟩
+        · exact ⟨hc.len, hc.shard, hc.placed, hc.fresh, hc.real⟩
         · split
-          · exact ⟨hc.len, hc.shard, hc.placed, hc.fresh⟩
+          · exact ⟨hc.len, hc.shard, hc.placed, hc.fresh, hc.real⟩
           · rename_i s hs
             have hsi := hc.shard _ s hs
             exact inv_setAt hc hs (shardInv_ev hsi (L.release_ok _ r hsi.ok) (L.release_mem _ r hsi.ok))
-              (hc.placed _ s hs) (Nat.le_refl _) (hc.fresh _ s hs) _
-      · exact ⟨hc.len, hc.shard, hc.placed, hc.fresh⟩
+              (hc.placed _ s hs) (Nat.le_refl _) (hc.fresh _ s hs) (hc.real _ s hs) _
+      · exact ⟨hc.len, hc.shard, hc.placed, hc.fresh, hc.real⟩
   | clear =>
     simp only [Cache.step]
     exact inv_mapShards hc _ (fun i s hs =>
@@ -234,10 +254,11 @@ theorem new_inv (L : Lawful P Ok) (cfg : Cfg) (cap : Nat) : CacheInv P Ok cfg (C
         obtain ⟨_, e⟩ := this
         simpa using e.symm
       subst this; exact h.symm
-  refine ⟨by simp [Cache.new], ?_, ?_, ?_⟩
+  refine ⟨by simp [Cache.new], ?_, ?_, ?_, ?_⟩
   · intro i s h
     rw [hsh i s h]
     exact ⟨L.init_ok _, by intro x; simp [Shard.new, L.init_members], by simp [Shard.new, keysNodup], by simp [Shard.new, wsum], by simp [Shard.new]⟩
+  · intro i s h r hr; rw [hsh i s h] at hr; simp [Shard.new] at hr
   · intro i s h r hr; rw [hsh i s h] at hr; simp [Shard.new] at hr
   · intro i s h r hr; rw [hsh i s h] at hr; simp [Shard.new] at hr
 
